@@ -153,4 +153,16 @@ pub fn generate(opts: &Opts, sink: &mut CaseSink) {
     }
 }
 
+/// two-input Start without cache (both sides run the same rounds)
+pub fn generate_plain(opts: &Opts, sink: &mut CaseSink) {
+    let mut rng = Rng::new(opts.seed ^ 0x51);
+    let n = (if opts.thorough { 3000 } else { 400 }) / opts.scale;
+    for _ in 0..n {
+        let (nl, nr) = (rng.range(1, 3) as usize, rng.range(1, 3) as usize);
+        let rounds = rng.range(1, 3) as usize;
+        let dels = plain_case(&mut rng, nl, nr, rounds);
+        emit(sink, nl, nr, false, false, dels, "binary_no_cache");
+    }
+}
+
 pub const RULE: &str = "cases = corpus (F10 history) + random delivery orders for the two-input Start with one cached side: 1..3 side-input replicas (empty / one / many batches), loop side with 1 replica (80%) or 2..3, 1..4 rounds, every interleaving respecting per-sender order and round structure; non-trivial: >=2 rounds and >=4 deliveries; distinct = distinct case terms";
